@@ -303,7 +303,7 @@ def finish(ctx, mod, agg):
     for key, (k, case, v) in seen_known.items():
         lines.append(f"KNOWN-FINDING: property={pid} {k.get('what', key)} [key={key}; e.g. case {case}: {v['msg'][:200]}]")
     unmet = []
-    if hasattr(mod, "reach"):
+    if hasattr(mod, "reach") and ctx.replay_case is None:
         try:
             unmet = list(mod.reach(ctx, agg) or [])
         except Exception:
